@@ -177,7 +177,7 @@ INS_KINDS = ["use", "const", "static", "impl", "trait", "helper", "ustruct", "ue
 EDIT_FAMILIES = ["none", "delete", "delete", "f17", "f17", "aux", "group", "retype", "rewrite", "rewrite", "insert",
                  "insert", "mixed", "mixed", "mixed", "heavy", "delall", "rename", "dup", "absent", "garbage"]
 SETTINGS = ["f0", "f0", "f0", "ast", "ast", "ist", "f0,ast", "ast,f0", "ist,a1", "f1", "-", "f1,ast", "ast,f1",
-            "a0,f0", "ast,a0"]
+            "a0,f0", "ast,a0", "odr,ast", "odr,ast", "ast,odr,f0", "odr,ist"]
 
 
 def rand_op(rng):
